@@ -2,6 +2,6 @@ SPECIFICATION MCSpec
 CONSTANTS DepthLimit = 1024
           Family = "seq"
           Forks = {"cancun", "prague", "osaka"}
-          SeqLen = 3
+          SeqLen = 2
 INVARIANTS Total FramesSane EtherConserved FailedRestores GasUsedBounds RejectedUntouched Emit
 CHECK_DEADLOCK FALSE
